@@ -166,6 +166,16 @@ def run(ch, idx, tier):
     use_progs = entry.meta["has_progset"] and ch.flip("with_programs", 0.65)
     progset = P.progsets[0] if use_progs else None
     history = []
+    if progset is not None and ch.flip("other_currency", 0.3):
+        # a program book kept in another currency (the currency is whatever the spending units say)
+        cur = ch.pick("currency", ["EUR", "AUD", "R", "£"])
+        for prog in progset.programs.values():
+            for ts in (prog.spend_data, prog.unit_cost, prog.baseline_spend):
+                if ts.units:
+                    ts.units = ts.units.replace(progset.currency, cur, 1)
+        progset.currency = cur
+        progset = at.ProgramSet.from_spreadsheet(progset.to_spreadsheet(), framework=fw, data=data)
+        history.append(f"program book in {cur}")
     trace = []
     compared = 0
     scratch = tempfile.mkdtemp(prefix="atomsim_c16_", dir=os.environ.get("VERIF_SCRATCH"))
@@ -374,8 +384,14 @@ def run(ch, idx, tier):
                     tc = list(progset.comps.keys())
                     prog.target_comps = [tc[ch.choose("add_program.comp", len(tc))]]
                     other = list(progset.programs.values())[0]
-                    prog.spend_data = at.TimeSeries(float(progset.tvec[0]), 1000.0 * (1 + ch.choose("add_program.spend", 5)), units=other.spend_data.units)
-                    prog.unit_cost = at.TimeSeries(float(progset.tvec[0]), 10.0 * (1 + ch.choose("add_program.uc", 5)), units=other.unit_cost.units)
+                    spend, uc = 1000.0 * (1 + ch.choose("add_program.spend", 5)), 10.0 * (1 + ch.choose("add_program.uc", 5))
+                    if ch.flip("add_program.data_in_place", 0.5):
+                        # values entered into the series the library created for the new program
+                        prog.spend_data.insert(float(progset.tvec[0]), spend)
+                        prog.unit_cost.insert(float(progset.tvec[0]), uc)
+                    else:
+                        prog.spend_data = at.TimeSeries(float(progset.tvec[0]), spend, units=other.spend_data.units)
+                        prog.unit_cost = at.TimeSeries(float(progset.tvec[0]), uc, units=other.unit_cost.units)
                     covs = [co for co in progset.covouts.values() if co.pop in prog.target_pops]
                     if covs and ch.flip("add_program.effect", 0.7):
                         co = covs[ch.choose("add_program.covout", len(covs))]
